@@ -153,7 +153,7 @@ def winClass (c : WinCase) : String :=
 
 def winVerdict (id : String) (c : WinCase) (obs : List (Nat × WinObs)) : String :=
   let m := runWin c.cfg (winLimitText c.cfg) c.reqs c.sched
-  let s := windowBoundOK c.cfg c.reqs obs && retryOK c.reqs obs c.retries
+  let s := windowBoundOK c.cfg c.reqs obs && retryOK c.reqs obs c.retries && rejectOK obs
   verdict id (obs == m) s (winClass c) (s!"{m.length} " ++ " ".intercalate (m.map showWinObs))
 
 /-! ### dispatch -/
